@@ -352,6 +352,91 @@ def check_index(project: Project, rep, ramp_status=None):
         rep.unmodelled("GL-INDEX", cl, f, "how snapped end-points are turned into grid positions was not recognised")
 
 
+def _inf_semantic(project: Project, rep, init) -> bool:
+    """start / stop left out: they become the smallest birth / largest death over the bars that have no infinite end-point,
+    and the diagram kept for sampling holds exactly those bars. True when decided (either way)."""
+    import random
+    from ..core import sym, symeval
+    from ..core.absint import Config, Interp
+    from ..core.values import Arr, NoneV, ObjV, Sc, Seq, fix, fresh
+    from .distances import dgm_input, unmodelled_in
+    I = Interp(project, Config(nonempty={("rows", "X")}, finite_inputs=set(), flags=dict(sub_nonempty=True)))
+    me = ObjV(AP, {})
+    args = {"dgms": Seq([dgm_input("X")], "list"), "hom_deg": Sc(sym.ZERO), "start": NoneV(), "stop": NoneV(),
+            "num_steps": Sc(sym.Sym("n")), "values": Arr([(fix(0), fresh())], sym.Opq("empty", ()), "nd"), "compute": Sc(sym.FALSE)}
+    try:
+        I.call_function(init, [me], {k: v for k, v in args.items() if k in init.params}, None)
+    except Exception:
+        return False
+    st, sp_ = me.attrs.get("start"), me.attrs.get("stop")
+    if not (isinstance(st, Sc) and isinstance(sp_, Sc)) or st.e is None or sp_.e is None or unmodelled_in(st.e) or unmodelled_in(sp_.e) \
+            or I.lossy:
+        return False
+    r = "$r"
+    b, d = sym.In("X", ((r, 0), 0)), sym.In("X", ((r, 0), 1))
+    fin = sym.And(sym.fn("isfinite", b), sym.fn("isfinite", d))
+    want = {"start": sym.Red("min", r, ("sub", ("rows", "X"), fin), b), "stop": sym.Red("max", r, ("sub", ("rows", "X"), fin), d)}
+    rng = random.Random(13)
+
+    def some_inf(pt_, name, idx):
+        if name == "X" and len(idx) == 2 and idx[1] == 1 and idx[0] > 0 and pt_.rng.random() < 0.5:
+            return float("inf")
+        return None
+    decided = True
+    for name, got in (("start", st.e), ("stop", sp_.e)):
+        bad = None
+        n_ok = 0
+        for t in range(40):
+            pt = symeval.Point(rng, nrows=3, input_fn=some_inf)
+            try:
+                g, w = symeval.ev(got, pt), symeval.ev(want[name], pt)
+            except symeval.NotEvaluable:
+                continue
+            n_ok += 1
+            if not (g == w or abs(g - w) <= 1e-12 * (1 + abs(w))):
+                bad = (g, w, {f"{k[0]}{list(k[1])}": round(v, 4) if v == v and abs(v) != float("inf") else str(v)
+                              for k, v in sorted(pt.inputs.items())})
+                break
+        if bad:
+            g, w, inp = bad
+            rep.refuted("GL-INF", init, init.node,
+                        f"with start/stop left out and an infinite bar in the diagram, the default `{name}` is {g:.4g} instead of "
+                        f"{w:.4g} (the {'smallest birth' if name == 'start' else 'largest death'} over the finite bars); diagram {inp}",
+                        construct=f"{init.qualname}: default {name}")
+        elif n_ok >= 10:
+            rep.discharged("GL-INF", init, init.node, f"default `{name}` is the {'smallest birth' if name == 'start' else 'largest death'} "
+                                                      f"over the bars without an infinite end-point ({n_ok} evaluated diagrams)")
+        else:
+            decided = False
+    dg = me.attrs.get("dgms")
+    if isinstance(dg, Arr) and dg.ndim == 2:
+        key = dg.axes[0][0].key
+        masks = []
+        while isinstance(key, tuple) and key and key[0] == "sub":
+            masks.append(key[2])
+            key = key[1]
+        if key == ("rows", "X") and masks:
+            riv = dg.axes[0][1]
+            m = sym.And(*masks)
+            for v_ in sorted(sym.free_ivars(m) - {riv}):
+                m = sym.subst_ivar(m, v_, (riv, 0))
+            ok, w = symeval.equivalent(m, sym.subst_ivar(fin, r, (riv, 0)), trials=40, input_fn=some_inf)
+            if ok is True:
+                rep.discharged("GL-INF", init, init.node, "the diagram kept for sampling holds exactly the bars without an infinite "
+                                                          "end-point")
+            elif ok is False:
+                rep.refuted("GL-INF", init, init.node, f"bars are kept under {sym.show(m)[:100]} instead of 'no infinite end-point'",
+                            construct=f"{init.qualname}: inf removal")
+        elif key == ("rows", "X"):
+            rep.refuted("GL-INF", init, init.node, "infinite bars are not removed from the diagram that is sampled",
+                        construct=f"{init.qualname}: inf removal")
+        else:
+            decided = False
+    else:
+        decided = False
+    return decided
+
+
 def check_dv_inf(project: Project, rep):
     fi = project.function("persim.landscapes.tools.death_vector")
     rep.analysed(fi)
@@ -383,9 +468,11 @@ def check_dv_inf(project: Project, rep):
             rep.refuted("GL-DV", fi, r, f"`{ast.unparse(v)}` is not the descending sort of the death column")
         else:
             rep.unmodelled("GL-DV", fi, r, f"`{ast.unparse(v)[:80]}`: form of the death vector not recognised")
-    # GL-INF in PersLandscapeApprox.__init__
+    # GL-INF in PersLandscapeApprox.__init__: decided on the constructor evaluated with a diagram that may hold infinite bars
     init = project.function(f"{AP}.__init__")
     rep.analysed(init)
+    if _inf_semantic(project, rep, init):
+        return
     body = fn_view(project, init)
     order = {id(st): k for k, st in enumerate(stmts_in_order(body))}
     P_START, P_STOP = "start", "stop"
